@@ -21,7 +21,7 @@ ASSUMPTIONS = ["a node instance is identified by (graph instance, node index); u
 FLOORS = {"faults_fired": {"quick": 1500, "thorough": 30000}, "start_faults": {"quick": 200, "thorough": 4000},
           "stop_faults": {"quick": 200, "thorough": 4000}, "eval_faults": {"quick": 400, "thorough": 8000},
           "nested_instance_faults": {"quick": 100, "thorough": 2000}, "instances_checked": {"quick": 10000, "thorough": 200000},
-          "dynamic_child_faults": {"quick": 100, "thorough": 2000}}
+          "dynamic_child_faults": {"quick": 100, "thorough": 2000}, "realtime_stops_with_values_still_queued": {"quick": 5, "thorough": 40}}
 BATCH = 60
 
 
@@ -211,6 +211,40 @@ def generate(rng, tier, seed):
                 c.meta["plan"] = [list(x) for x in plan]
                 cases.append(c)
     return cases
+
+
+def unit_phase(tier, seed):
+    """Real-time root graphs (push sources + sinks) stopped while values are still queued, after a drain, and at the end time:
+    nodes start in index order and stop in the reverse order (lifecycle observer of the hgrt harness)."""
+    from .runner import ensure_build
+    from .rt import Scenario, run_scenarios
+    from .c16 import check_lifecycle
+    exe = ensure_build("hgrt")
+    rng = random.Random(f"C14rt/{seed}/{tier}")
+    scs = []
+    for k in range(scaled(24 if tier == "quick" else 200)):
+        kv = dict(kind="push", policy=rng.choice(["queue", "queue", "burst"]), cap=rng.choice([0, 0, 2, 5]), producers=rng.choice([1, 2, 3]),
+                  msgs=rng.choice([50, 200, 600]), blocking=rng.choice([0, 1]), pacing=rng.choice(["spin", "yield", "sleep:20"]),
+                  stop=rng.choice(["drain", f"afterms:{rng.choice([1, 3, 8])}", f"aftermsgs:{rng.choice([5, 30])}"]), late=1, end_ms=3000,
+                  seed=rng.randrange(1 << 30))
+        if rng.random() < 0.5:
+            kv["sources"] = 2
+            kv["producers"] = max(2, kv["producers"])
+        if rng.random() < 0.5:
+            kv["delays"] = f"ps.eval.after_emit:{rng.choice([100, 400, 1500])}:{rng.choice([1, 3])}"       # slow consumer: values stay queued
+        scs.append(Scenario(f"c14rt_{seed}_{k}", kv))
+    viol, C = [], {"realtime_stop_orders_checked": 0, "realtime_stops_with_values_still_queued": 0}
+    for sc, tr, rc, err, secs in run_scenarios(exe, scs, f"C14rt.{tier}.{seed}", workers=8):
+        if tr is None or tr.run is None or not tr.lifecycle:
+            continue
+        C["realtime_stop_orders_checked"] += 1
+        delivered = {x for d in tr.deliveries for x in d[4]}
+        if any(s[5] == 1 and s[1] != "late" and s[2] not in delivered for s in tr.sends):
+            C["realtime_stops_with_values_still_queued"] += 1
+        for m in check_lifecycle(tr)[:1]:
+            if len(viol) < 5:
+                viol.append((sc.name, Violation(f"real-time graph {sc.kv}: {m}"), {"scenario": sc.kv}))
+    return {"violations": viol, "counters": C, "coverage": {"realtime_scenarios": len(scs)}}
 
 
 def check(case, tr):
